@@ -827,7 +827,94 @@ def smid_check(ct, case, rec):
     rec.require("simplex-midpoints:no-unused", len(m2.points_without_cells) == 0)
 
 
+INT_OPS = ["rotate", "translate", "mirror", "add_midpoints_edges", "add_midpoints_faces", "add_midpoints_volumes", "convert", "triangulate", "expand", "revolve",
+           "flip", "merge_duplicate_points", "disconnect", "dual", "add_runouts", "copy", "fill_between", "container"]
+
+
+def int_strategy(op, tier):
+    return st.fixed_dictionaries({"kind": st.sampled_from(["quad", "hexahedron", "triangle", "tetra", "line"]), "n": st.lists(st.integers(2, 4), min_size=3, max_size=3),
+                                  "angle": fl(-170, 170, 1), "axis": st.integers(0, 2), "move": fl(-2.5, 2.5), "seed": st.integers(0, 2**16)})
+
+
+def int_check(op, case, rec):
+    """meshes whose coordinates are integers and stored with an integer dtype (a user-built Mesh, a grid of counted positions): every
+    transformation gives the same mesh as for the float-typed twin - nothing is truncated to integers on the way"""
+    fem = import_felupe()
+    kind = case["kind"]
+    dim = {"line": 1, "quad": 2, "triangle": 2, "hexahedron": 3, "tetra": 3}[kind]
+    n = tuple(case["n"][:dim])
+    base = (fem.mesh.Line if dim == 1 else fem.Rectangle if dim == 2 else fem.Cube)(**({"a": 0, "b": n[0] - 1, "n": n[0]} if dim == 1 else {"a": (0,) * dim, "b": tuple(k - 1 for k in n), "n": n}))
+    if kind in ("triangle", "tetra"):
+        base = base.triangulate()
+    Pf = np.round(np.asarray(base.points, float))
+    mf = fem.Mesh(Pf.copy(), np.asarray(base.cells).copy(), base.cell_type)
+    mi = fem.Mesh(Pf.astype(int), np.asarray(base.cells).copy(), base.cell_type)
+    rec.nontrivial = True
+
+    def apply(m):
+        ax = case["axis"] % max(dim, 1)
+        if op == "rotate":
+            if dim == 1:
+                return None
+            return m.rotate(angle_deg=case["angle"], axis=2 if dim == 2 else ax)
+        if op == "translate":
+            return m.translate(move=case["move"], axis=ax)
+        if op == "mirror":
+            nrm = np.zeros(dim)
+            nrm[ax] = 1.0
+            nrm[(ax + 1) % dim] += 0.5 if dim > 1 else 0.0
+            return m.mirror(normal=nrm, centerpoint=[0.5] * dim)
+        if op in ("add_midpoints_edges", "add_midpoints_faces", "add_midpoints_volumes"):
+            if dim == 1 or (op == "add_midpoints_volumes" and dim == 2):
+                return None
+            mm = m.add_midpoints_edges()
+            if op != "add_midpoints_edges":
+                mm = mm.add_midpoints_faces()
+            if op == "add_midpoints_volumes":
+                mm = mm.add_midpoints_volumes()
+            return mm
+        if op == "convert":
+            return None if dim == 1 else m.convert(order=2, calc_midfaces=True, calc_midvolumes=dim == 3)
+        if op == "triangulate":
+            return m.triangulate() if kind in ("quad", "hexahedron") else None
+        if op == "expand":
+            return m.expand(n=3, z=case["move"] if abs(case["move"]) > 0.1 else 1.5) if kind in ("line", "quad") else None
+        if op == "revolve":
+            return m.translate(move=1, axis=dim - 1 if dim == 2 else 0).revolve(n=5, phi=abs(case["angle"]) / 2 + 10) if kind == "quad" else None
+        if op == "flip":
+            return m.flip(mask=np.arange(m.ncells) % 2 == 0)
+        if op == "merge_duplicate_points":
+            return fem.mesh.concatenate([m, m.translate(move=n[0] - 1, axis=0)]).merge_duplicate_points(decimals=6)
+        if op == "disconnect":
+            return m.disconnect()
+        if op == "dual":
+            return m.dual(points_per_cell=np.asarray(m.cells).shape[1], disconnect=True, calc_points=True, offset=2)
+        if op == "add_runouts":
+            return m.add_runouts(values=[0.15], centerpoint=[(k - 1) / 2 for k in n], axis=0, exponent=3, normalize=True) if kind in ("quad", "hexahedron") else None
+        if op == "copy":
+            return m.copy(points=np.asarray(m.points) * 1.5)
+        if op == "fill_between":
+            return m.fill_between(m.translate(move=1.5, axis=0), n=3) if kind == "line" and False else None
+        if op == "container":
+            c_ = fem.MeshContainer([m, m.translate(move=0.5, axis=0)], merge=True, decimals=6)
+            return fem.Mesh(c_.points, np.vstack([x_.cells for x_ in c_.meshes]), m.cell_type)
+        raise KeyError(op)
+
+    rf = apply(mf)
+    if rf is None:
+        rec.reject("operation not applicable to this cell type")
+        return
+    ri = apply(mi)
+    Pa, Pb = np.asarray(ri.points, float), np.asarray(rf.points, float)
+    rec.require("same-cells-as-the-float-twin", ri.cell_type == rf.cell_type and np.array_equal(np.asarray(ri.cells), np.asarray(rf.cells)))
+    if not rec.require("same-points-shape-as-the-float-twin", Pa.shape == Pb.shape, [Pa.shape, Pb.shape]):
+        return
+    rec.close("same-points-as-the-float-twin", float(np.abs(Pa - Pb).max()), 1e-12, {"dtype": str(np.asarray(ri.points).dtype), "kind": kind})
+    rec.require("input-keeps-its-integer-points", np.array_equal(np.asarray(mi.points), Pf.astype(int)))
+
+
 FAMILIES = [
+    Family("integer-points", INT_OPS, int_check, strategy=int_strategy, n={"quick": 10, "thorough": 200}, chunk=10),
     Family("simplex-midpoints", ["triangle", "tetra", "quad", "hexahedron"], smid_check, strategy=smid_strategy, n={"quick": 8, "thorough": 200}, chunk=8),
     Family("dual", ["quad", "hexahedron", "triangle", "tetra", "quad8", "hexahedron20", "tetra10"], dual_check, strategy=dual_strategy, n={"quick": 8, "thorough": 150}, chunk=8),
     Family("merge-tolerance", [-1, 0, 1, 2, 4], mtol_check, strategy=mtol_strategy, n={"quick": 8, "thorough": 200}, chunk=8),
